@@ -8,6 +8,7 @@ import (
 	"reflect"
 	"regexp"
 	"strings"
+	"unicode"
 
 	"github.com/segmentio/encoding/json"
 	"verif/mc/explore"
@@ -144,7 +145,16 @@ func baseDocs(t reflect.Type) [][]byte {
 		d := out[i]
 		for _, m := range keyRe.FindAllSubmatchIndex(d, 4) {
 			name := string(d[m[2]:m[3]])
-			for _, v := range []string{name + `\u0000`, strings.ToUpper(name), strings.ToLower(name), name + " ", name + "x", name[:len(name)-1], "\u017f" + name, name + `\u0000\u0000`} {
+			vars := []string{name + `\u0000`, strings.ToUpper(name), strings.ToLower(name), name + " ", name + "x", name[:len(name)-1], "\u017f" + name, name + `\u0000\u0000`}
+			// every rune on its own replaced by each other member of its case-folding orbit (é/É, k/K/Kelvin sign, s/S/long s, σ/ς/Σ)
+			rs := []rune(name)
+			for ri, r := range rs {
+				for x := unicode.SimpleFold(r); x != r; x = unicode.SimpleFold(x) {
+					alt := append(append(append([]rune{}, rs[:ri]...), x), rs[ri+1:]...)
+					vars = append(vars, string(alt))
+				}
+			}
+			for _, v := range vars {
 				alt := string(d[:m[2]]) + v + string(d[m[3]:])
 				add([]byte(alt))
 			}
@@ -163,7 +173,7 @@ func baseDocs(t reflect.Type) [][]byte {
 	return out
 }
 
-var keyRe = regexp.MustCompile(`"([A-Za-z][A-Za-z0-9_]*)":`)
+var keyRe = regexp.MustCompile(`"([\p{L}][\p{L}\p{N}_]*)":`)
 
 // memberValue returns the text of the value that follows position p if it is a scalar.
 func memberValue(d []byte, p int) string {
@@ -319,7 +329,7 @@ func mutated(c *explore.Ctx) {
 	}
 }
 
-var tokens = []string{"{", "}", "[", "]", ",", ":", `"a"`, `"A"`, `""`, "1", "-1", "1.5", "1e2", "null", "true", "false", " ", "x"}
+var tokens = []string{"{", "}", "[", "]", ",", ":", `"a"`, `"A"`, `""`, "1", "-1", "1.5", "1e2", "null", "true", "false", " ", "x", "1e+", "2E-"}
 
 var tokenTargets = []reflect.Type{
 	jgen.T[any](), jgen.T[int](), jgen.T[string](), jgen.T[[]int](), jgen.T[[2]int](), jgen.T[map[string]int](), jgen.T[struct{ A int }](), jgen.T[*int](), jgen.T[bool](), jgen.T[float64](),
